@@ -9,6 +9,13 @@
 //! script constants of String / List type); after every step the heap is
 //! scribbled over so that freed-but-still-referenced bytes change.
 //!
+//! Tracked values come in two size classes: `Tk` (a tag and a payload) and the
+//! zero-sized `Zs` / `Zr` / `Zf` (script constant / registered constant / the
+//! only capture of a zero-sized registered closure), which own no memory but
+//! have a `Drop` that must run exactly once all the same.  A runtime may carry
+//! further registered closures (`rs:<r>`): two made by ONE closure expression
+//! (same Rust type, separate captured state) and a zero-sized one.
+//!
 //! usage: c11 run <seed> <quick|thorough>
 //!        c11 replay '<json {"history": "b:0 rc:0 …"}>'
 //!        c11 worker <random|exh|one|vg> …      (crash-isolated children)
@@ -57,7 +64,58 @@ fn live_of(tag: u64) -> i64 {
     LIVE.lock().unwrap().get(&tag).copied().unwrap_or(0)
 }
 
+// ---- zero-sized tracked types (no room for a tag: one live counter per type)
+
+macro_rules! zst_tracked {
+    ($name:ident, $ctr:ident) => {
+        static $ctr: std::sync::atomic::AtomicI64 = std::sync::atomic::AtomicI64::new(0);
+        #[derive(Debug, PartialEq)]
+        pub struct $name;
+        impl $name {
+            fn new() -> $name {
+                $ctr.fetch_add(1, Ordering::SeqCst);
+                $name
+            }
+        }
+        impl Clone for $name {
+            fn clone(&self) -> $name {
+                $name::new()
+            }
+        }
+        impl Drop for $name {
+            fn drop(&mut self) {
+                $ctr.fetch_sub(1, Ordering::SeqCst);
+            }
+        }
+    };
+}
+zst_tracked!(Zs, ZS_LIVE); // type of zero-sized script constants
+zst_tracked!(Zr, ZR_LIVE); // type of the zero-sized registered constant
+zst_tracked!(Zf, ZF_LIVE); // the only capture of the zero-sized registered closure
+
+/// a live-instance counter: per tag (sized values) or per zero-sized type
+#[derive(Clone, Copy, Debug)]
+enum Ctr {
+    Tag(u64),
+    Zs,
+    Zr,
+    Zf,
+}
+fn live_ctr(c: Ctr) -> i64 {
+    match c {
+        Ctr::Tag(t) => live_of(t),
+        Ctr::Zs => ZS_LIVE.load(Ordering::SeqCst),
+        Ctr::Zr => ZR_LIVE.load(Ordering::SeqCst),
+        Ctr::Zf => ZF_LIVE.load(Ordering::SeqCst),
+    }
+}
+
 fn tag_r(r: u32) -> u64 { 1_000_000 + r as u64 }
+fn tag_d(r: u32) -> u64 { 5_000_000 + r as u64 }
+fn val_d(r: u32) -> u32 { 90 + 11 * r }
+fn tag_g(r: u32, j: u32) -> u64 { 4_000_000 + 10 * r as u64 + j as u64 }
+fn val_g(r: u32, j: u32) -> u32 { 500 + 20 * r + 7 * j }
+const VAL_GZ: u32 = 5;
 fn tag_f(r: u32) -> u64 { 2_000_000 + r as u64 }
 fn tag_s(k: u32, c: u32) -> u64 { 3_000_000 + 100 * k as u64 + c as u64 }
 fn val_r(r: u32) -> u32 { 7 + r }
@@ -71,7 +129,12 @@ enum Op {
     Build(u32),
     RegConst(u32),
     RegClos(u32),
-    Compile { r: u32, k: u32, n: u32, uc: bool, uf: bool, ud: bool },
+    /// registers the further closures of runtime r: `sib0`, `sib1` (one closure expression, each its own
+    /// captured `Tk`) and `sibz` (zero-sized: captures only a `Zf`)
+    RegSibs(u32),
+    /// `z` zero-sized script constants (model indices 0..z), then `n` sized ones (indices z..z+n);
+    /// `us`: bit j set = the script calls further closure j of its runtime
+    Compile { r: u32, k: u32, n: u32, z: u32, uc: bool, uf: bool, ud: bool, us: u8 },
     Get(u32),
     /// `Package::get_tests`: the `TestCase` of the script's one test (wraps a handle; appended like `Get`)
     GetTest(u32),
@@ -124,16 +187,24 @@ fn data_value(k: u32) -> u32 {
 }
 
 /// the value `main()` of that compilation is meant to return
-fn value_of(r: u32, k: u32, n: u32, uc: bool, uf: bool, ud: bool) -> u32 {
+fn value_of(r: u32, k: u32, n: u32, z: u32, uc: bool, uf: bool, ud: bool, us: u8) -> u32 {
     let mut v = 1000 * k;
-    for c in 0..n {
+    for c in z..z + n {
         v += val_s(k, c);
     }
     if ud {
-        v += data_value(k) + val_s(k, n);
+        v += data_value(k) + val_s(k, z + n);
+    }
+    for j in 0..2 {
+        if us & (1 << j) != 0 {
+            v += val_g(r, j);
+        }
+    }
+    if us & 4 != 0 {
+        v += VAL_GZ;
     }
     if uc {
-        v += val_r(r);
+        v += val_r(r) + val_d(r);
     }
     if uf {
         v += val_f(r);
@@ -147,13 +218,14 @@ impl Op {
             Op::Build(r) => format!("b:{r}"),
             Op::RegConst(r) => format!("rc:{r}"),
             Op::RegClos(r) => format!("rf:{r}"),
-            Op::Compile { r, k, n, uc, uf, ud } => format!(
-                "c:{r}:{k}:{}:{}:{}:{}:{}",
-                *n + *ud as u32,
+            Op::RegSibs(r) => format!("rs:{r}"),
+            Op::Compile { r, k, n, z, uc, uf, ud, us } => format!(
+                "c:{r}:{k}:{}:{z}:{}:{}:{}:{us}:{}",
+                *z + *n + *ud as u32,
                 *uc as u8,
                 *uf as u8,
                 *ud as u8,
-                value_of(*r, *k, *n, *uc, *uf, *ud)
+                value_of(*r, *k, *n, *z, *uc, *uf, *ud, *us)
             ),
             Op::Get(k) => format!("g:{k}"),
             Op::GetTest(k) => format!("gt:{k}"),
@@ -183,8 +255,19 @@ impl Op {
             ("b", 2) => Op::Build(n(1)?),
             ("rc", 2) => Op::RegConst(n(1)?),
             ("rf", 2) => Op::RegClos(n(1)?),
-            ("c", 6) | ("c", 7) => Op::Compile { r: n(1)?, k: n(2)?, n: n(3)?, uc: n(4)? == 1, uf: n(5)? == 1, ud: false },
-            ("c", 8) => Op::Compile { r: n(1)?, k: n(2)?, n: n(3)?.checked_sub(n(6)?)?, uc: n(4)? == 1, uf: n(5)? == 1, ud: n(6)? == 1 },
+            ("rs", 2) => Op::RegSibs(n(1)?),
+            ("c", 6) | ("c", 7) => Op::Compile { r: n(1)?, k: n(2)?, n: n(3)?, z: 0, uc: n(4)? == 1, uf: n(5)? == 1, ud: false, us: 0 },
+            ("c", 8) => Op::Compile { r: n(1)?, k: n(2)?, n: n(3)?.checked_sub(n(6)?)?, z: 0, uc: n(4)? == 1, uf: n(5)? == 1, ud: n(6)? == 1, us: 0 },
+            ("c", 10) => Op::Compile {
+                r: n(1)?,
+                k: n(2)?,
+                n: n(3)?.checked_sub(n(7)?)?.checked_sub(n(4)?)?,
+                z: n(4)?,
+                uc: n(5)? == 1,
+                uf: n(6)? == 1,
+                ud: n(7)? == 1,
+                us: (n(8)? & 7) as u8,
+            },
             ("if", 2) => Op::IntoFunc(n(1)? as usize),
             ("g", 2) => Op::Get(n(1)?),
             ("gt", 2) => Op::GetTest(n(1)?),
@@ -201,6 +284,7 @@ impl Op {
             Op::Build(_) => "build",
             Op::RegConst(_) => "reg-const",
             Op::RegClos(_) => "reg-closure",
+            Op::RegSibs(_) => "reg-siblings",
             Op::Compile { .. } => "compile",
             Op::Get(_) => "get",
             Op::GetTest(_) => "get-test",
@@ -230,6 +314,8 @@ fn parse_hist(s: &str) -> Option<Vec<Op>> {
 struct Info {
     r: u32,
     n: u32,
+    z: u32,
+    us: u8,
     uc: bool,
     uf: bool,
     ud: bool,
@@ -246,6 +332,8 @@ struct Spec {
     has_clos: BTreeSet<u32>,
     const_ever: BTreeSet<u32>,
     clos_ever: BTreeSet<u32>,
+    has_sibs: BTreeSet<u32>,
+    sibs_ever: BTreeSet<u32>,
     compiled: BTreeMap<u32, Info>,
     pkgs: Vec<u32>,
     hs: Vec<u32>,
@@ -259,11 +347,13 @@ impl Spec {
             Op::Build(r) => !self.built.contains(r),
             Op::RegConst(r) => self.rts.contains(r) && !self.const_ever.contains(r),
             Op::RegClos(r) => self.rts.contains(r) && !self.clos_ever.contains(r),
-            Op::Compile { r, k, uc, uf, .. } => {
+            Op::RegSibs(r) => self.rts.contains(r) && !self.sibs_ever.contains(r),
+            Op::Compile { r, k, uc, uf, us, .. } => {
                 self.rts.contains(r)
                     && !self.compiled.contains_key(k)
                     && (!uc || self.has_const.contains(r))
                     && (!uf || self.has_clos.contains(r))
+                    && (*us == 0 || self.has_sibs.contains(r))
             }
             Op::Get(k) | Op::GetTest(k) | Op::DropP(k, _) => self.pkgs.contains(k),
             Op::Call(i) | Op::DropH(i, _) => *i < self.hs.len(),
@@ -285,8 +375,15 @@ impl Spec {
                 self.has_clos.insert(*r);
                 self.clos_ever.insert(*r);
             }
-            Op::Compile { r, k, n, uc, uf, ud } => {
-                self.compiled.insert(*k, Info { r: *r, n: *n, uc: *uc, uf: *uf, ud: *ud, value: value_of(*r, *k, *n, *uc, *uf, *ud) });
+            Op::RegSibs(r) => {
+                self.has_sibs.insert(*r);
+                self.sibs_ever.insert(*r);
+            }
+            Op::Compile { r, k, n, z, uc, uf, ud, us } => {
+                self.compiled.insert(
+                    *k,
+                    Info { r: *r, n: *n, z: *z, us: *us, uc: *uc, uf: *uf, ud: *ud, value: value_of(*r, *k, *n, *z, *uc, *uf, *ud, *us) },
+                );
                 self.pkgs.push(*k);
             }
             Op::Get(k) => {
@@ -315,6 +412,7 @@ impl Spec {
                 self.rts.remove(r);
                 self.has_const.remove(r);
                 self.has_clos.remove(r);
+                self.has_sibs.remove(r);
             }
         }
     }
@@ -322,29 +420,72 @@ impl Spec {
     fn referred(&self, k: u32) -> bool {
         self.pkgs.contains(&k) || self.hs.contains(&k)
     }
-    /// allowed live counts of every tracked resource: (tag, name, min, max)
-    fn expected_live(&self) -> Vec<(u64, String, i64, i64)> {
+    /// allowed live counts of every tracked resource: (counter, name, min, max, the Lean model predicts it too)
+    fn expected_live(&self) -> Vec<(Ctr, String, i64, i64, bool)> {
         let mut out = vec![];
+        let (mut rz_min, mut rz_max) = (0, 0);
         for r in &self.const_ever {
             let needed = self.has_const.contains(r)
                 || self.compiled.iter().any(|(k, i)| i.r == *r && i.uc && self.referred(*k));
             // a module may keep a registered constant it does not read; that is not "too early"
             let may = needed || self.compiled.iter().any(|(k, i)| i.r == *r && self.referred(*k));
-            out.push((tag_r(*r), format!("R{r}"), needed as i64, may as i64));
+            out.push((Ctr::Tag(tag_r(*r)), format!("R{r}"), needed as i64, may as i64, true));
+            // the second registered constant of the SAME type (registered and read together with the first)
+            out.push((Ctr::Tag(tag_d(*r)), format!("RD{r}"), needed as i64, may as i64, false));
+            rz_min += needed as i64;
+            rz_max += may as i64;
+        }
+        if !self.const_ever.is_empty() {
+            // the zero-sized registered constants (one per `rc`), all runtimes together
+            out.push((Ctr::Zr, "RZ".into(), rz_min, rz_max, false));
         }
         for r in &self.clos_ever {
             let needed = self.has_clos.contains(r)
                 || self.compiled.iter().any(|(k, i)| i.r == *r && i.uf && self.referred(*k));
             let may = needed || self.compiled.iter().any(|(k, i)| i.r == *r && self.referred(*k));
-            out.push((tag_f(*r), format!("F{r}"), needed as i64, may as i64));
+            out.push((Ctr::Tag(tag_f(*r)), format!("F{r}"), needed as i64, may as i64, true));
         }
+        let (mut z_any, mut z_live) = (false, 0);
         for (k, i) in &self.compiled {
-            // with `ud`, constant #n is the tracked element of the List-typed script constant
-            for c in 0..i.n + i.ud as u32 {
+            // with `ud`, the constant after the sized ones is the tracked element of the List-typed script constant
+            for c in i.z..i.z + i.n + i.ud as u32 {
                 let a = self.referred(*k) as i64;
-                out.push((tag_s(*k, c), format!("S{k}.{c}"), a, a));
+                out.push((Ctr::Tag(tag_s(*k, c)), format!("S{k}.{c}"), a, a, true));
             }
+            z_any |= i.z > 0;
+            z_live += i.z as i64 * self.referred(*k) as i64;
         }
+        if z_any {
+            // zero-sized script constants of all versions together
+            out.push((Ctr::Zs, "Z".into(), z_live, z_live, true));
+        }
+        let (mut gz_min, mut gz_max) = (0, 0);
+        for r in &self.sibs_ever {
+            let calls = |j: u32| self.compiled.iter().any(|(k, i)| i.r == *r && i.us & (1 << j) != 0 && self.referred(*k));
+            let any = self.compiled.iter().any(|(k, i)| i.r == *r && self.referred(*k));
+            for j in 0..2 {
+                let needed = self.has_sibs.contains(r) || calls(j);
+                out.push((Ctr::Tag(tag_g(*r, j)), format!("G{r}.{j}"), needed as i64, (needed || any) as i64, true));
+            }
+            let needed = self.has_sibs.contains(r) || calls(2);
+            gz_min += needed as i64;
+            gz_max += (needed || any) as i64;
+        }
+        if !self.sibs_ever.is_empty() {
+            out.push((Ctr::Zf, "GZ".into(), gz_min, gz_max, true));
+        }
+        // the order the Lean driver prints them in: R, F, S, Z, G<r>.<j>, GZ
+        let rank = |n: &str| match (&n[..1], n) {
+            (_, "RZ") => 1,
+            _ if n.starts_with("RD") => 1,
+            ("R", _) => 0,
+            ("F", _) => 2,
+            ("S", _) => 3,
+            (_, "Z") => 4,
+            (_, "GZ") => 6,
+            _ => 5,
+        };
+        out.sort_by_key(|e| rank(&e.1));
         out
     }
 }
@@ -423,24 +564,48 @@ struct World {
     hs: Vec<(u32, H)>,
 }
 
+/// every further closure comes out of this one closure expression: same Rust type, separate state
+fn make_sib(tag: u64, val: u32) -> impl Fn() -> u32 + Send + Sync + 'static {
+    let cap = Tk::new(tag, val);
+    move || {
+        let c = &cap;
+        c.val
+    }
+}
+/// a closure whose only capture is zero-sized (so is the closure), with a Drop that must run exactly once
+fn make_sibz() -> impl Fn() -> u32 + Send + Sync + 'static {
+    let guard = Zf::new();
+    move || {
+        let _g = &guard;
+        VAL_GZ
+    }
+}
+
 fn roto_list(l: &[u32]) -> String {
     format!("[{}]", l.iter().map(|x| x.to_string()).collect::<Vec<_>>().join(", "))
 }
 
-fn script(r: u32, k: u32, n: u32, uc: bool, uf: bool, ud: bool) -> String {
-    let value = value_of(r, k, n, uc, uf, ud);
+fn script(r: u32, k: u32, n: u32, z: u32, uc: bool, uf: bool, ud: bool, us: u8) -> String {
+    let value = value_of(r, k, n, z, uc, uf, ud, us);
     let mut s = String::new();
-    for c in 0..n {
+    for c in 0..z {
+        // a script constant of a zero-sized type that has a Drop
+        s.push_str(&format!("const ZC{c}: Zs = mkz();\n"));
+    }
+    for c in z..z + n {
         s.push_str(&format!("const SC{c}: Tk = mk({}, {});\n", tag_s(k, c), val_s(k, c)));
     }
     if ud {
         // script constants of List and String type (the List one holds a tracked element)
-        s.push_str(&format!("const SLT: List[Tk] = [mk({}, {})];\n", tag_s(k, n), val_s(k, n)));
+        s.push_str(&format!("const SLT: List[Tk] = [mk({}, {})];\n", tag_s(k, z + n), val_s(k, z + n)));
         s.push_str(&format!("const SL: List[u32] = {};\n", roto_list(&list_const(k))));
         s.push_str(&format!("const SS: String = \"{}\" + \"{}\";\n", lit_const_a(k), lit_const_b()));
     }
     s.push_str(&format!("fn main() -> u32 {{\n    {}", 1000 * k));
-    for c in 0..n {
+    for c in 0..z {
+        s.push_str(&format!(" + zval(ZC{c})"));
+    }
+    for c in z..z + n {
         s.push_str(&format!(" + val(SC{c})"));
     }
     if ud {
@@ -452,10 +617,15 @@ fn script(r: u32, k: u32, n: u32, uc: bool, uf: bool, ud: bool) -> String {
         s.push_str("\n    + (match SLT.get(0) { Some(t) => val(t), None => 0, })");
     }
     if uc {
-        s.push_str(" + val(REGC)");
+        s.push_str(" + val(REGC) + val(REGD) + zrval(REGZ)");
     }
     if uf {
         s.push_str(" + getclos()");
+    }
+    for (j, name) in ["sib0", "sib1", "sibz"].iter().enumerate() {
+        if us & (1 << j) != 0 {
+            s.push_str(&format!(" + {name}()"));
+        }
     }
     s.push_str("\n}\n");
     s.push_str(&format!("test selfcheck {{\n    if main() != {} {{\n        reject;\n    }}\n    accept\n}}\n", value));
@@ -470,6 +640,11 @@ impl World {
                     #[clone] type Tk = Val<Tk>;
                     fn mk(tag: u64, v: u32) -> Val<Tk> { Val(Tk::new(tag, v)) }
                     fn val(t: Val<Tk>) -> u32 { t.0.val }
+                    #[clone] type Zs = Val<Zs>;
+                    fn mkz() -> Val<Zs> { Val(Zs::new()) }
+                    fn zval(z: Val<Zs>) -> u32 { let _z = z; 0 }
+                    #[clone] type Zr = Val<Zr>;
+                    fn zrval(z: Val<Zr>) -> u32 { let _z = z; 0 }
                     fn ssum(s: RotoString) -> u32 { ssum_of(&s) }
                     fn lsum(l: List<u32>) -> u32 { lsum_of(&l.to_vec()) }
                     fn ipsum(a: IpAddr) -> u32 { ipsum_of(&a) }
@@ -481,9 +656,37 @@ impl World {
             Op::RegConst(r) => {
                 let c = roto::Constant::new("REGC", "tracked constant", Val(Tk::new(tag_r(*r), val_r(*r))), roto::location!())
                     .map_err(|e| format!("{e}"))?;
+                let cd = roto::Constant::new("REGD", "second tracked constant of the same type", Val(Tk::new(tag_d(*r), val_d(*r))), roto::location!())
+                    .map_err(|e| format!("{e}"))?;
+                let cz = roto::Constant::new("REGZ", "zero-sized tracked constant", Val(Zr::new()), roto::location!())
+                    .map_err(|e| format!("{e}"))?;
                 match self.rts.get_mut(r).unwrap() {
-                    Rt::No(rt) => rt.add(c).map_err(|e| format!("{e}"))?,
-                    Rt::Cx(rt) => rt.add(c).map_err(|e| format!("{e}"))?,
+                    Rt::No(rt) => {
+                        rt.add(c).map_err(|e| format!("{e}"))?;
+                        rt.add(cd).map_err(|e| format!("{e}"))?;
+                        rt.add(cz).map_err(|e| format!("{e}"))?
+                    }
+                    Rt::Cx(rt) => {
+                        rt.add(c).map_err(|e| format!("{e}"))?;
+                        rt.add(cd).map_err(|e| format!("{e}"))?;
+                        rt.add(cz).map_err(|e| format!("{e}"))?
+                    }
+                }
+            }
+            Op::RegSibs(r) => {
+                // two closures from ONE closure expression (same Rust type), each with its own captured state,
+                // and a zero-sized closure (its only capture is a zero-sized guard)
+                let fns = vec![
+                    roto::Function::new("sib0", "further closure 0", vec![], make_sib(tag_g(*r, 0), val_g(*r, 0)), roto::location!()),
+                    roto::Function::new("sib1", "further closure 1", vec![], make_sib(tag_g(*r, 1), val_g(*r, 1)), roto::location!()),
+                    roto::Function::new("sibz", "zero-sized closure", vec![], make_sibz(), roto::location!()),
+                ];
+                for f in fns {
+                    let f = f.map_err(|e| format!("{e}"))?;
+                    match self.rts.get_mut(r).unwrap() {
+                        Rt::No(rt) => rt.add(f).map_err(|e| format!("{e}"))?,
+                        Rt::Cx(rt) => rt.add(f).map_err(|e| format!("{e}"))?,
+                    }
                 }
             }
             Op::RegClos(r) => {
@@ -496,8 +699,8 @@ impl World {
                     Rt::Cx(rt) => rt.add(lib).map_err(|e| format!("{e}"))?,
                 }
             }
-            Op::Compile { r, k, n, uc, uf, ud } => {
-                let src = script(*r, *k, *n, *uc, *uf, *ud);
+            Op::Compile { r, k, n, z, uc, uf, ud, us } => {
+                let src = script(*r, *k, *n, *z, *uc, *uf, *ud, *us);
                 let tree = FileTree::test_file(&format!("v{k}.roto"), &src, 0);
                 let pkg = match &self.rts[r] {
                     Rt::No(rt) => Pkg::No(tree.compile(rt).map_err(|e| format!("compile v{k}: {e}"))?),
@@ -609,6 +812,9 @@ fn run_history(h: &[Op], drv: Option<&mut Driver>, progress: bool) -> Outcome {
     let mut out = Outcome { violations: vec![], mismatches: vec![], signature: String::new(), classes: vec![] };
     LIVE.lock().unwrap().clear();
     BAD_DROPS.store(0, Ordering::SeqCst);
+    for c in [&ZS_LIVE, &ZR_LIVE, &ZF_LIVE] {
+        c.store(0, Ordering::SeqCst);
+    }
     let lean: Option<Vec<String>> = drv.map(|d| {
         let line = format!("c11 run {}", h.iter().map(|o| o.lean()).collect::<Vec<_>>().join(" "));
         d.ask(&line).split('|').map(|s| s.to_string()).collect()
@@ -629,8 +835,8 @@ fn run_history(h: &[Op], drv: Option<&mut Driver>, progress: bool) -> Outcome {
             let _ = std::io::stdout().flush();
         }
         let valid = spec.valid(op);
-        let before: Vec<(u64, String, i64)> =
-            spec.expected_live().into_iter().map(|(t, n, _, _)| (t, n, live_of(t))).collect();
+        let before: Vec<(Ctr, String, i64)> =
+            spec.expected_live().into_iter().map(|(t, n, _, _, _)| (t, n, live_ctr(t))).collect();
         if valid {
             if let Err(e) = w.apply(op) {
                 out.violations.push((format!("the API refused a valid operation: {e}"), format!("api-error {}", op.kind()), step));
@@ -643,9 +849,11 @@ fn run_history(h: &[Op], drv: Option<&mut Driver>, progress: bool) -> Outcome {
         // ---- observe the real state: first the resource counts (a release that came too early is reported
         // as such, before a call through the dangling handle can kill the process), then the calls
         let mut live = vec![];
-        for (tag, name, min, max) in spec.expected_live() {
-            let n = live_of(tag);
-            live.push(format!("{name}:{n}"));
+        for (tag, name, min, max, in_model) in spec.expected_live() {
+            let n = live_ctr(tag);
+            if in_model {
+                live.push(format!("{name}:{n}"));
+            }
             if n < min {
                 out.violations.push((
                     format!("{name} has {n} live instance(s) but is still referred to (released too early{})", if n < 0 { ", more than once" } else { "" }),
@@ -687,7 +895,7 @@ fn run_history(h: &[Op], drv: Option<&mut Driver>, progress: bool) -> Outcome {
         if matches!(op, Op::DropH(..) | Op::DropP(..) | Op::DropR(..)) && valid {
             let mut rel = BTreeSet::new();
             for (t, n, b) in &before {
-                if live_of(*t) < *b {
+                if live_ctr(*t) < *b {
                     rel.insert(n[..1].to_string());
                 }
             }
@@ -724,8 +932,8 @@ fn run_history(h: &[Op], drv: Option<&mut Driver>, progress: bool) -> Outcome {
             let _ = std::io::stdout().flush();
         }
         drop(w);
-        for (tag, name, _, _) in spec.expected_live() {
-            let n = live_of(tag);
+        for (tag, name, _, _, _) in spec.expected_live() {
+            let n = live_ctr(tag);
             if n != 0 {
                 out.violations.push((
                     format!("after dropping every object {name} has {n} live instance(s) (exactly-once release)"),
@@ -749,6 +957,9 @@ fn all_ops(spec: &Spec, max_rt: u32, max_k: u32, exhaustive: bool) -> Vec<Op> {
         v.push(Op::Build(r));
         v.push(Op::RegConst(r));
         v.push(Op::RegClos(r));
+        if !exhaustive {
+            v.push(Op::RegSibs(r));
+        }
         v.push(Op::DropR(r, false));
     }
     let next_k = spec.compiled.keys().max().map(|k| k + 1).unwrap_or(1);
@@ -756,14 +967,20 @@ fn all_ops(spec: &Spec, max_rt: u32, max_k: u32, exhaustive: bool) -> Vec<Op> {
         for r in 0..max_rt {
             if exhaustive {
                 // the script uses everything there is: constant, closure and every kind of code-owned data
+                // (a sized and a zero-sized script constant, and every further closure of the runtime)
                 let (uc, uf) = (spec.has_const.contains(&r), spec.has_clos.contains(&r));
-                v.push(Op::Compile { r, k: next_k, n: 1, uc, uf, ud: true });
+                let us = if spec.has_sibs.contains(&r) { 7 } else { 0 };
+                v.push(Op::Compile { r, k: next_k, n: 1, z: 1, uc, uf, ud: true, us });
             } else {
                 for n in 0..3 {
                     for uc in [false, true] {
                         for uf in [false, true] {
                             for ud in [false, true] {
-                                v.push(Op::Compile { r, k: next_k, n, uc, uf, ud });
+                                // zero-sized script constants; which of the further closures are called (only the
+                                // first, only the second, both of one type, the zero-sized one, all)
+                                for (z, us) in [(0, 0), (1, 0), (2, 3), (0, 1), (0, 2), (1, 4), (0, 3), (1, 7), (0, 6)] {
+                                    v.push(Op::Compile { r, k: next_k, n, z, uc, uf, ud, us });
+                                }
                             }
                         }
                     }
@@ -820,6 +1037,9 @@ fn gen_random(p: &mut Prng) -> Vec<Op> {
     if p.chance(5, 6) {
         push(&mut h, &mut spec, Op::RegClos(0));
     }
+    if p.chance(2, 3) {
+        push(&mut h, &mut spec, Op::RegSibs(0));
+    }
     while h.len() < len {
         let ops = all_ops(&spec, max_rt, 6, false);
         if ops.is_empty() {
@@ -870,7 +1090,7 @@ fn gen_random(p: &mut Prng) -> Vec<Op> {
 /// All histories `prefix ++ suffix` with `suffix` of length ≤ `depth` over the
 /// operations valid at each point (one runtime, ≤ 2 compilations), ending in a drop.
 fn gen_exhaustive(depth: usize) -> Vec<Vec<Op>> {
-    let prefix = vec![Op::Build(0), Op::RegConst(0), Op::RegClos(0)];
+    let prefix = vec![Op::Build(0), Op::RegConst(0), Op::RegClos(0), Op::RegSibs(0)];
     let mut spec = Spec::default();
     for o in &prefix {
         spec.apply(o);
@@ -881,7 +1101,7 @@ fn gen_exhaustive(depth: usize) -> Vec<Vec<Op>> {
             return;
         }
         for op in all_ops(spec, 1, 2, true) {
-            if matches!(op, Op::Build(_) | Op::RegConst(_) | Op::RegClos(_)) {
+            if matches!(op, Op::Build(_) | Op::RegConst(_) | Op::RegClos(_) | Op::RegSibs(_)) {
                 continue;
             }
             // adjacent creation operations commute (they only add an owner): one canonical order per
@@ -922,13 +1142,13 @@ fn gen_exhaustive(depth: usize) -> Vec<Vec<Op>> {
 /// dropping the others; plus hot reload (recompile on the same runtime after
 /// registering more) and two runtimes.
 fn gen_boundary() -> Vec<Vec<Op>> {
-    let full = |k: u32| Op::Compile { r: 0, k, n: 2, uc: true, uf: true, ud: true };
-    let pre = vec![Op::Build(0), Op::RegConst(0), Op::RegClos(0)];
+    let full = |k: u32| Op::Compile { r: 0, k, n: 2, z: 1, uc: true, uf: true, ud: true, us: 7 };
+    let pre = vec![Op::Build(0), Op::RegConst(0), Op::RegClos(0), Op::RegSibs(0)];
     let mut out: Vec<Vec<Op>> = vec![];
     // r = 0: a plain runtime; r = 1: a runtime with a context type (the `Ctx<C>` instantiations of
     // get_function / call / into_func)
     for r in [0u32, 1] {
-        let full = |k: u32| Op::Compile { r, k, n: 2, uc: true, uf: true, ud: true };
+        let full = |k: u32| Op::Compile { r, k, n: 2, z: 1, uc: true, uf: true, ud: true, us: 7 };
         // the survivor: 0 = plain handle, 1 = clone (original dropped), 2 = closure, 3 = closure of a clone,
         // 4 = test case
         for survivor in 0..5 {
@@ -937,7 +1157,7 @@ fn gen_boundary() -> Vec<Vec<Op>> {
                     if r == 1 && thread {
                         continue;
                     }
-                    let mut h = vec![Op::Build(r), Op::RegConst(r), Op::RegClos(r)];
+                    let mut h = vec![Op::Build(r), Op::RegConst(r), Op::RegClos(r), Op::RegSibs(r)];
                     h.push(full(1));
                     h.push(if survivor == 4 { Op::GetTest(1) } else { Op::Get(1) });
                     match survivor {
@@ -980,10 +1200,24 @@ fn gen_boundary() -> Vec<Vec<Op>> {
         }
     }
     // each kind of resource on its own (so that a result names the kind), handle and closure as survivor
-    for (n, uc, uf, ud) in [(0, false, false, true), (2, false, false, false), (0, true, false, false), (0, false, true, false), (0, false, false, false)] {
+    // (… a zero-sized script constant alone and next to a sized one; of the further closures: both of the ONE
+    // type, only the first, only the second, the zero-sized one)
+    for (n, z, uc, uf, ud, us) in [
+        (0, 0, false, false, true, 0),
+        (2, 0, false, false, false, 0),
+        (0, 0, true, false, false, 0),
+        (0, 0, false, true, false, 0),
+        (0, 0, false, false, false, 0),
+        (0, 1, false, false, false, 0),
+        (1, 2, false, false, false, 0),
+        (0, 0, false, false, false, 3),
+        (0, 0, false, false, false, 1),
+        (0, 0, false, false, false, 2),
+        (0, 0, false, false, false, 4),
+    ] {
         for obj in 0..3 {
             let mut h = pre.clone();
-            h.push(Op::Compile { r: 0, k: 1, n, uc, uf, ud });
+            h.push(Op::Compile { r: 0, k: 1, n, z, uc, uf, ud, us });
             h.push(if obj == 2 { Op::GetTest(1) } else { Op::Get(1) });
             if obj == 1 {
                 h.push(Op::IntoFunc(0));
@@ -995,10 +1229,11 @@ fn gen_boundary() -> Vec<Vec<Op>> {
     // registering after a compilation, then compiling again on the same runtime (hot reload with a grown runtime)
     out.push(vec![
         Op::Build(0),
-        Op::Compile { r: 0, k: 1, n: 1, uc: false, uf: false, ud: true },
+        Op::Compile { r: 0, k: 1, n: 1, z: 0, uc: false, uf: false, ud: true, us: 0 },
         Op::Get(1),
         Op::RegConst(0),
         Op::RegClos(0),
+        Op::RegSibs(0),
         full(2),
         Op::Get(2),
         Op::IntoFunc(1),
@@ -1009,6 +1244,25 @@ fn gen_boundary() -> Vec<Vec<Op>> {
         Op::DropH(1, false),
         Op::DropH(0, false),
     ]);
+    // two versions on one runtime call different further closures of the ONE type (and both the zero-sized one);
+    // the runtime goes first, then the packages, each handle is the last owner of what its version calls
+    for first in [1u8, 2] {
+        out.push(vec![
+            Op::Build(0),
+            Op::RegSibs(0),
+            Op::Compile { r: 0, k: 1, n: 0, z: 1, uc: false, uf: false, ud: false, us: first | 4 },
+            Op::Compile { r: 0, k: 2, n: 1, z: 0, uc: false, uf: false, ud: false, us: 3 },
+            Op::Get(1),
+            Op::Get(2),
+            Op::DropR(0, false),
+            Op::DropP(2, false),
+            Op::DropP(1, false),
+            Op::Call(0),
+            Op::DropH(1, false),
+            Op::Call(0),
+            Op::DropH(0, false),
+        ]);
+    }
     // two runtimes: dropping one never touches the other's packages
     out.push(vec![
         Op::Build(0),
@@ -1017,8 +1271,10 @@ fn gen_boundary() -> Vec<Vec<Op>> {
         Op::RegClos(0),
         Op::RegConst(1),
         Op::RegClos(1),
+        Op::RegSibs(0),
+        Op::RegSibs(1),
         full(1),
-        Op::Compile { r: 1, k: 2, n: 1, uc: true, uf: true, ud: true },
+        Op::Compile { r: 1, k: 2, n: 1, z: 1, uc: true, uf: true, ud: true, us: 7 },
         Op::Get(1),
         Op::Get(2),
         Op::IntoFunc(1),
@@ -1114,7 +1370,7 @@ fn main() {
             if crashes.get() >= 6 {
                 rep.notes.push(format!("run cut short after {} crashed histories", crashes.get()));
             }
-            rep.notes.push(format!("boundary: {n_bnd} class representatives (last owner = handle / clone / into_func closure / test case × drop orders × thread × plain / context runtime) run first; exhaustive: all {n_exh} histories (runtime with constant+closure) ++ suffix of ≤ {depth} ops ending in a drop; random: {n_rand} histories"));
+            rep.notes.push(format!("boundary: {n_bnd} class representatives (last owner = handle / clone / into_func closure / test case × drop orders × thread × plain / context runtime; each resource kind alone, among them zero-sized script constants, two registered closures of one Rust type, a zero-sized closure) run first; exhaustive: all {n_exh} histories (runtime with constant+closure) ++ suffix of ≤ {depth} ops ending in a drop; random: {n_rand} histories"));
             if thorough {
                 valgrind_subset(&mut rep, seed);
             }
